@@ -303,6 +303,32 @@ def judgeDialerIndependent : List Nat → List Nat → String
     else judgeDialerIndependent cs ps
   | _, _ => "fail:count:the runs with dial.dns-cache on and off report different numbers of samples"
 
+/-! ### shots the instance discards (`discard_overflow`)
+
+Between the schedule and the gun the instance may decide NOT to send a request it holds (it is too far behind its
+schedule) and reports a sample tagged `discarded` with net code 777 instead: that sample says "a shot was not sent".
+Ground truth of "fired": the target saw the request. A fired request has exactly one sample — its own, with the
+faithful codes; a request that was never fired has none that carries its id; and a `discarded` sample stands for a request
+that was not fired, so there are never more of them than unfired requests. -/
+
+def discardedTag : String := "discarded"
+def discardedNet : Nat := 777
+
+/-- is this the sample the engine reports for a shot it did not send -/
+def isDiscarded (o : Obs) : Bool := o.tags == discardedTag && o.id == 0 && o.net == discardedNet
+
+/-- the samples carrying one request's id, given whether the target saw that request -/
+def judgeFiredOrNot (fired : Bool) (expTag : String) (t : Truth) (mine : List Obs) : String :=
+  if fired then judgeHttp expTag t mine
+  else if mine.isEmpty then "ok"
+  else s!"fail:count:{mine.length} sample(s) carry the id of a request the target never saw"
+
+/-- `unfired`: requests of the run the target never saw; `discards`: samples saying a shot was not sent -/
+def judgeDiscards (total unfired discards : Nat) : String :=
+  if discards > unfired then
+    s!"fail:count:{discards} sample(s) say a shot was discarded (not sent) but only {unfired} of the {total} request(s) were not fired"
+  else "ok"
+
 /-- all ids distinct -/
 def idsUnique (ids : List Nat) : Bool :=
   let rec go : List Nat → Bool
